@@ -35,6 +35,7 @@ import (
 	"go.uber.org/zap"
 
 	"github.com/mimiro-io/datahub/internal/conf"
+	"github.com/mimiro-io/datahub/internal/verifhook"
 )
 
 type qresult struct {
@@ -1714,6 +1715,7 @@ func (s *Store) ExecuteTransaction(transaction *Transaction) error {
 		datasets[k] = dataset.(*Dataset)
 		s.MetaCtx.RegisterTransactionSink(k)
 
+		verifhook.Point("txn.before-lock")
 		dataset.(*Dataset).WriteLock.Lock()
 		// release lock at end regardless
 		defer dataset.(*Dataset).WriteLock.Unlock()
@@ -1735,16 +1737,19 @@ func (s *Store) ExecuteTransaction(transaction *Transaction) error {
 		updateCountsPerDataset[k] = newItems
 	}
 
+	verifhook.Point("txn.before-id-commit")
 	err := s.commitIDTxn()
 	if err != nil {
 		return err
 	}
 
+	verifhook.Point("txn.before-data-commit")
 	err = txn.Commit()
 	if err != nil {
 		return err
 	}
 
+	verifhook.Point("txn.after-data-commit")
 	// update the txn counts
 	for k, v := range updateCountsPerDataset {
 		ds, ok := s.datasets.Load(k)
